@@ -293,6 +293,9 @@ class Thread:
         st.handle = self
         self._st = st
         self.ident = st.tid + 1000
+        # CPython's Thread.start() now waits until the new thread has reported in (`self._started.wait()`): a signal
+        # that arrives during this wait raises in the caller although the thread exists and runs
+        sim.op_enter(("thread-start-wait", self.name))
 
     def join(self, timeout=None):
         sim = _sim()
